@@ -1311,6 +1311,14 @@ pub fn serialize_full(r: &ctap2::Response) -> Vec<u8> {
     buf.to_vec()
 }
 
+/// Serialise twice into the same buffer: a transport buffer that is reused without being cleared.
+pub fn serialize_twice(r: &ctap2::Response) -> Vec<u8> {
+    let mut buf: HVec<u8, 7609> = HVec::new();
+    r.serialize(&mut buf);
+    r.serialize(&mut buf);
+    buf.to_vec()
+}
+
 /// Serialise into a buffer that already holds `prior` (non-zero sentinel bytes): the result must
 /// not depend on what the buffer held before the call.
 pub fn serialize_dirty(r: &ctap2::Response, prior_len: usize) -> Vec<u8> {
